@@ -20,7 +20,7 @@ INTS = [("-1", -1), ("0", 0), ("1", 1), ("2", 2), ("7", 7)]
 DOMAINS = {
     "func": [("ctlfuncs.work", P("ctlfuncs.work")), ("ctlfuncs.quick", P("ctlfuncs.quick")),
              ("ctlfuncs.plain", P("ctlfuncs.plain")), ("nosuch.module.f", P("nosuch.module.f")),
-             ("ctlfuncs._quiet", P("ctlfuncs._quiet"))],
+             ("ctlfuncs._quiet", P("ctlfuncs._quiet")), ("ctlfuncs.decorated", P("ctlfuncs.decorated"))],
     "end_callback": [("ctlfuncs.cb", P("ctlfuncs.cb"))],
     "cancel_callback": [("ctlfuncs.cb", P("ctlfuncs.cb"))],
     "args": [("()", L("()")), ("(1,2)", L("(1,2)")), ("[3]", L("[3]")), ("('null','true')", L("('null','true')"))],
@@ -32,8 +32,9 @@ DOMAINS = {
     "args_iter": [("[(1,2),(3,4)]", L("[(1,2),(3,4)]")), ("[]", L("[]"))],
     "kwargs_iter": [("[{'a':1},{'a':2}]", L("[{'a':1},{'a':2}]")), ("[]", L("[]"))],
     "num": INTS, "num_concurrent": [("0", 0), ("1", 1), ("2", 2)], "value": INTS, "number": INTS,
-    "group_name": [("g1", "g1"), ("gx", "gx"), ("a\tb", "a\tb"), ("e\u0301\u212b", "e\u0301\u212b")],     # (the last one is not in NFC form)
-    "msg": [("hello", "hello")], "label": [("lbl", "lbl")],
+    "group_name": [("g1", "g1"), ("gx", "gx"), ("a\tb", "a\tb"), ("e\u0301\u212b", "e\u0301\u212b"),      # (not in NFC form)
+                   ("None", "None"), ("my_grp-100%s", "my_grp-100%s")],          # (the text None is a name like any other)
+    "msg": [("hello", "hello"), ("None", "None")], "label": [("lbl", "lbl")],
     "f": INTS, "el": [("kg", "kg")], "level": INTS, "limit": INTS,
     "task_ids": [([], []), (["0"], [0]), (["0", "1"], [0, 1]), (["5"], [5]), (["0", "0"], [0, 0])],
     "group_names": [(["g1"], ["g1"]), (["g1", "start-group-0"], ["g1", "start-group-0"]), (["nosuch"], ["nosuch"]),
@@ -103,6 +104,9 @@ def build(cmd, choice):
         elif p["kind"] == "flag":
             opts.append("--" + dashed(p["name"]))
             kwargs[p["name"]] = True
+        elif (len(text) + len(cmd["name"]) + len(choice)) % 3 == 0 and " " not in text and text:
+            opts.append("--" + dashed(p["name"]) + "=" + text)       # the --option=value form
+            kwargs[p["name"]] = val
         else:
             opts.extend(["--" + dashed(p["name"]), text])
             kwargs[p["name"]] = val
